@@ -129,6 +129,15 @@ func (t *Transaction) With(name string, readOnly bool, createFn func() (Cachable
 	 * with common enemies including concurrent read-writes to maps and scrapped
 	 * caches. */
 	// ---------------------------
+	/* A writer records the caches it locks in the transaction, so it needs the
+	 * transaction lock. It is always taken before the manager lock and released
+	 * once the cache lock is recorded: taking it while holding the manager lock
+	 * can deadlock with a sibling goroutine of this transaction that holds it
+	 * while waiting for the write lock of a cache whose reader in turn waits
+	 * for the manager lock. */
+	if !readOnly {
+		t.mu.Lock()
+	}
 	// We start with manager lock so others don't try to create the same cache
 	t.manager.mu.Lock()
 	if existingCache, ok := t.manager.sharedCaches[name]; ok {
@@ -188,12 +197,11 @@ func (t *Transaction) With(name string, readOnly bool, createFn func() (Cachable
 			 * like insert, update or delete, then we'll have to wait anyway because
 			 * of bbolt (recall bbolt only allows one read-write transaction at a
 			 * time) which is absolutely fine for a search heavy workload. */
-			t.mu.Lock()
 			/* Have we locked this cache before? Within a transaction we hold
 			 * onto writes until we know the transaction is committed. This is
 			 * to ensure other readers or writers do not see partial results.
 			 * Within a transaction a writer can write to multiple caches, e.g.
-			 * multiple indices. */
+			 * multiple indices. The transaction lock is held since the start. */
 			if _, ok := t.writtenCaches[name]; !ok {
 				/****************************
 				 * Please do not forget to unlock after the transaction is
@@ -245,6 +253,9 @@ func (t *Transaction) With(name string, readOnly bool, createFn func() (Cachable
 	if err != nil {
 		t.failed.Store(true)
 		t.manager.mu.Unlock()
+		if !readOnly {
+			t.mu.Unlock()
+		}
 		return fmt.Errorf("error while creating fresh cache: %w", err)
 	}
 	s := &sharedCacheElem{
@@ -262,7 +273,6 @@ func (t *Transaction) With(name string, readOnly bool, createFn func() (Cachable
 	} else {
 		// The following shared cache lock is released when the transaction is done.
 		s.mu.Lock()
-		t.mu.Lock()
 		t.writtenCaches[name] = s
 		t.mu.Unlock()
 		// defer s.mu.Unlock()
